@@ -16,6 +16,6 @@ timeout 1800 /venv/bin/python MUTATION/demo.py > /tmp/wt/$(basename $WT).demo_wi
 echo "exit=$WO"; tail -3 /tmp/wt/$(basename $WT).demo_without.txt
 git apply MUTATION/patch.diff || echo "RE-APPLY FAILED"
 echo "== baseline tests WITH change"
-/tmp/wt/run_tests.sh "$WT" | tail -3
+NPROC=${NPROC:-3} nice -n 10 /tmp/wt/run_tests.sh "$WT" | tail -3
 echo "== summary with=$W without=$WO"
 } > "$OUT" 2>&1
